@@ -1,6 +1,7 @@
 from __future__ import annotations
 
 import numbers
+import os
 import pathlib
 import sys
 import mmap
@@ -1533,6 +1534,9 @@ class Bits:
         """
         # If the bitstring is file based then we don't want to read it all in to memory first.
         chunk_size = 8 * 100 * 1024 * 1024  # 100 MiB
+        if os.environ.get('BITSTRING_VERIF') == '1':
+            # Verification hook (off unless BITSTRING_VERIF=1): lets a checker cross the chunk boundary with small data.
+            chunk_size = int(os.environ.get('BITSTRING_VERIF_TOFILE_CHUNK_BITS', chunk_size))
         for chunk in self.cut(chunk_size):
             f.write(chunk.tobytes())
 
